@@ -85,8 +85,8 @@ func ghost_decpath(d *gob.Decoder) string { panic("ghost") }
 func ghost_decpos(d *gob.Decoder) int     { panic("ghost") }
 func ghost_idxName(p string) string       { panic("ghost") }
 
-//@ func spec_decoded
-//@   inline
+// @ func spec_decoded
+// @   inline
 func spec_decoded(path string, k int, v any) bool {
 	if s, ok := v.(*string); ok {
 		return s != nil && (k != 0 || *s == ghost_idxName(path))
@@ -119,7 +119,10 @@ func spec_decoded(path string, k int, v any) bool {
 //@   requires mb.store != nil && !mb.indexLoaded && spec_listOK(mb) && len(mb.messages) == 0 && cap(mb.messages) == 0
 //@   modifies mb.messages, mb.indexLoaded, mb.name
 //@   ensures ret != nil ==> !mb.indexLoaded
-//@   ensures[loaded C10 C07] ret == nil ==> spec_loaded(mb) && (vcFresh(mb.messages) || len(mb.messages) == 0)
+//@   ensures[loadedList C10 C07] ret == nil ==> mb.indexLoaded && spec_listOK(mb) && (vcFresh(mb.messages) || len(mb.messages) == 0)
+//@   ensures[loadedCount C10 C07] ret == nil ==> len(mb.messages) == spec_idxN(mb.indexPath)
+//@   ensures[loadedEntries C10 C07] ret == nil ==> spec_entriesMatchA(mb)
+//@   ensures[loadedIndex C10 C07] ret == nil ==> spec_entriesMatchB(mb)
 //@   ensures[entriesFresh] ret == nil ==> forall i int :: { mb.messages[i] } 0 <= i && i < len(mb.messages) ==> vcFresh(mb.messages[i])
 //@   ensures[nameRestored C10] ret == nil && ghost_exists(mb.indexPath) ==> mb.name == ghost_idxName(mb.indexPath)
 //@   loop 1: invariant dec != nil && ghost_decpath(dec) == mb.indexPath && ghost_decpos(dec) == len(mb.messages) + 1 && !mb.indexLoaded && ghost_exists(mb.indexPath)
@@ -235,8 +238,16 @@ func spec_decoded(path string, k int, v any) bool {
 //@      vcSeqAt(ghost_emitted(&mb.store.extHost.Events.AfterMessageDeleted), old(ghost_nemitted(&mb.store.extHost.Events.AfterMessageDeleted))).ID == id
 //@   loop 1: invariant 0 <= ridx && ridx <= len(mb.messages) && spec_loaded(mb) && msg == nil
 //@   loop 1: invariant forall i int :: { mb.messages[i] } 0 <= i && i < ridx ==> mb.messages[i].Fid != id
+//@   loop 1: invariant forall t int :: { vcSeqAt(ghost_idxIDs(mb.indexPath), t) } 0 <= t && t < ridx ==> vcSeqAt(ghost_idxIDs(mb.indexPath), t) != id
 //@   loop 1: invariant ghost_nemitted(&mb.store.extHost.Events.AfterMessageDeleted) == old(ghost_nemitted(&mb.store.extHost.Events.AfterMessageDeleted))
 //@   loop 1: decreases len(mb.messages) - ridx
+//@   loop 1: after[shiftedLen] msg != nil ==> len(mb.messages) == old(spec_idxN(mb.indexPath)) - 1 && 1 <= ridx && ridx-1 <= len(mb.messages)
+//@   loop 1: after[shiftedAt] msg != nil ==> vcSeqAt(ghost_idxIDs(mb.indexPath), ridx-1) == id
+//@   loop 1: after[shiftedNoEarlier] msg != nil ==> forall t int :: { vcSeqAt(ghost_idxIDs(mb.indexPath), t) } 0 <= t && t < ridx-1 ==> vcSeqAt(ghost_idxIDs(mb.indexPath), t) != id
+//@   loop 1: after[shiftedBefore] msg != nil ==> forall t int :: { vcSeqAt(ghost_idxIDs(mb.indexPath), t) } 0 <= t && t < ridx-1 ==>
+//@            vcSeqAt(vcElemsOf(mb.messages), vcOff(mb.messages)+t).Fid == vcSeqAt(ghost_idxIDs(mb.indexPath), t)
+//@   loop 1: after[shiftedBehind] msg != nil ==> forall u int :: { vcSeqAt(ghost_idxIDs(mb.indexPath), u) } ridx-1 < u && u <= len(mb.messages) ==>
+//@            vcSeqAt(vcElemsOf(mb.messages), vcOff(mb.messages)+u-1).Fid == vcSeqAt(ghost_idxIDs(mb.indexPath), u)
 //@   serves C07 C10 C11 C16
 
 // The index file of a mailbox: a function of the store's mail path and the mailbox name only.
